@@ -36,6 +36,16 @@ def gen_dag(r, n):
                 if r.random() < extra and [order[j], order[i]] not in es and not (order[j] in parents and order[i] in parents):
                     es.append([order[j], order[i]])
         return shuffled(r, es)
+    if n >= 6 and r.random() < 0.12:
+        # a sink W with several unshielded collider pairs, one of which (X, Y) compels Z -> W by the third orientation rule only
+        # (Z - X, Z - Y stay undirected); the other pair (A, B) points into everything.  Which collider pair of W a rule meets
+        # first depends on the column order / hash seed.
+        a, b, z, x, y, w = order[:6]
+        es = [[a, z], [b, z], [a, x], [b, x], [a, y], [b, y], [z, x], [z, y], [x, w], [y, w], [a, w], [b, w], [z, w]]
+        for o in order[6:]:
+            if r.random() < 0.5:
+                es.append([o, r.choice([a, b])] if r.random() < 0.5 else [w, o])
+        return shuffled(r, es)
     if n >= 5 and r.random() < 0.3:
         # a clique whose internal orientations are only partly compelled from outside: outsiders point into some clique members
         # (orientation rules whose premises need NON-adjacent parents meet plenty of adjacent ones here)
